@@ -62,3 +62,60 @@ def run_thermal(net, mode, opts):
             if k in net and len(df):
                 net[k] = net[k].combine_first(df)[list(net[k].columns)]
     return out, exc
+
+
+# ------------------------------------------------------------------------------------------------
+# the repository's own test-suite as a workload (thorough tier)
+# ------------------------------------------------------------------------------------------------
+SUITE_PARTS = 12
+
+
+def suite_cases():
+    return [{"kind": "repo_suite", "part": i, "parts": SUITE_PARTS} for i in range(SUITE_PARTS)]
+
+
+def run_suite_case(case, prop, obs):
+    """Run one slice of the repository's test files under the monitor plugin and merge what it observed."""
+    import glob
+    import json
+    import os
+    import subprocess
+    import sys
+    import tempfile
+    repo = os.environ.get("VERIF_REPO", "/repo")
+    files = sorted(glob.glob(os.path.join(repo, "src", "pandapipes", "test", "**", "test_*.py"), recursive=True))
+    mine = [f for i, f in enumerate(files) if i % case["parts"] == case["part"]]
+    if not mine:
+        return 0
+    fd, out = tempfile.mkstemp(prefix="pvsuite_", suffix=".jsonl")
+    os.close(fd)
+    env = dict(os.environ, VERIF_PLUGIN_PROP=prop, VERIF_PLUGIN_OUT=out, PANDAPIPES_VERIF="1")
+    try:
+        r = subprocess.run([sys.executable, "-m", "pytest", "-q", "-p", "no:cacheprovider", "-p", "pvmon.pytest_plugin", "--timeout=900",
+                            "-x", "--no-header", "-W", "ignore"] + mine, env=env, cwd=repo, capture_output=True, text=True, timeout=2400)
+        tail = (r.stdout or "")[-300:]
+        obs.count("suite_pytest_exit_%d" % r.returncode)
+        n = 0
+        with open(out) as f:
+            for line in f:
+                rec = json.loads(line)
+                n += 1
+                for v in rec["violations"]:
+                    v = dict(v)
+                    v.setdefault("witness", {})["test"] = rec.get("test")
+                    v["msg"] = "[repo test %s] %s" % (rec.get("test"), v["msg"])
+                    if sum(1 for x in obs.violations if x["tag"] == v["tag"]) < 3:
+                        obs.violations.append(v)
+                for k, c in rec["counters"].items():
+                    obs.count(k, c)
+                for k, m in rec["maxima"].items():
+                    obs.maxi(k, m)
+        obs.count("suite_pipeflow_calls_observed", n)
+        if r.returncode not in (0, 1, 5):
+            obs.count("suite_pytest_problem")
+        return n
+    finally:
+        try:
+            os.remove(out)
+        except OSError:
+            pass
